@@ -396,12 +396,13 @@ def handshake_fault_case(case):
 class ModelWorld(ApiWorld):
     """ApiWorld + reference model fed with exactly the bytes delivered to the client."""
 
-    def __init__(self, gen, loop, net, log, inst=None, knobs=None):
-        super().__init__(gen, loop, net, log, inst, knobs)
+    def __init__(self, gen, loop, net, log, inst=None, knobs=None, host=None):
+        super().__init__(gen, loop, net, log, inst, knobs, host=host)
         from .refmodel import RefModel
         self.model = RefModel(gen)
         self._fed = 0
         self._bufs = {}
+        self._conn_host = {}
 
     def feed(self):
         """Apply frames delivered since the last call; returns the change list."""
@@ -410,7 +411,11 @@ class ModelWorld(ApiWorld):
         while self._fed < len(ev):
             seq, t, kind, d = ev[self._fed]
             self._fed += 1
+            if kind == "NET.open":
+                self._conn_host[d["conn"]] = d["host"]
             if kind == "NET.deliver":
+                if self.host is not None and self._conn_host.get(d["conn"]) != self.host:
+                    continue   # a frame for another client on the same simulated network
                 buf = self._bufs.setdefault(d["conn"], bytearray())
                 buf += d["data"]
                 frames, rest, err = R.parse_stream(self.gen, bytes(buf))
@@ -431,7 +436,7 @@ class ModelWorld(ApiWorld):
         return ok
 
     async def inject(self, raw):
-        c = self.net.current()
+        c = self.conn()
         if c is None:
             return False
         self.console.send(c, raw)
